@@ -510,7 +510,7 @@ def cli_fallback(smt, timeout_s):
         os.unlink(path)
 
 
-def discharge(obls, timeout_ms=20000, jobs=None, fallback=True):
+def _discharge_base(obls, timeout_ms=20000, jobs=None, fallback=True):
     jobs = jobs or int(os.environ.get("PYVC_JOBS", min(16, os.cpu_count() or 4)))
     work = []
     for i, ob in enumerate(obls):
@@ -576,3 +576,11 @@ def discharge(obls, timeout_ms=20000, jobs=None, fallback=True):
         r["obligation"] = ob
         out.append(r)
     return out
+
+
+def discharge(obls, timeout_ms=20000, jobs=None, fallback=True):
+    """all stages of _discharge_base, then the seed/order portfolio (pyvc/portfolio.py) on what is still unknown"""
+    from . import portfolio
+
+    out = _discharge_base(obls, timeout_ms, jobs, fallback)
+    return portfolio.rescue(out, to_smt2, timeout_ms, jobs) if fallback else out
